@@ -119,3 +119,18 @@ PROPS['C12'] = dict(
 for _p in ('C10', 'C17', 'C20'):
     PROPS[_p].setdefault('engines', []).append(eng_c12.engine)
     PROPS[_p].setdefault('replayers', []).append(eng_c12.replayer)
+
+import eng_c13
+PROPS['C13'] = dict(
+    props_file='Props/C13.v', kernels=[],
+    engines=[eng_c13.engine], extended=[eng_c13.engine], replayers=[eng_c13.replayer],
+    rule='eng_c13: pairs of positions (link starts, ends, interiors; same link, reversed street, adjacent, random) on the shipped Denver graph and on generated strongly connected graphs; non-trivial = origin and destination on different links',
+    trusted_base=['networkx.astar_path (oracle: returns a node path of graph edges from source to target)', 'cKDTree nearest-link lookup and h3.h3_line (oracles)',
+                  'link-table consistency hypothesis tab_ok is re-checked on every graph the engine loads'],
+)
+PROPS['C14'] = dict(
+    props_file='Props/C14.v', kernels=[],
+    engines=[eng_c13.engine], extended=[eng_c13.engine], replayers=[eng_c13.replayer],
+    rule='eng_c13: routed pairs on Denver and generated graphs with speeds from 5 to 110 km/h, inner travel time compared with an exact-rational Dijkstra; per-source potential certificates checked by the verified checker',
+    trusted_base=['networkx.astar_path (oracle; optimality validated per instance by the Coq-verified potential certificate)', 'harness Dijkstra only supplies candidate potentials'],
+)
